@@ -121,7 +121,7 @@ def verify_function(e: Engine, qname: str) -> FunctionResult:
         # share lazily-created heap arrays between entry and current
         entry.heap = {k: list(v) for k, v in st.heap.items()}
         # cover: the precondition is satisfiable
-        cov = Obligation(f"{qname}/cover:requires", list(e.axioms) + list(st.pc), FALSE, dict(e.interest), e.prop, "cover",
+        cov = Obligation(f"{qname}/cover:requires", list(e.axioms) + list(st.pc), FALSE, dict(e.interest), "", "cover",
                          expect="sat")
         e.obls.append(cov)
         outs = e.exec_block(fi.node.body, st)
@@ -132,7 +132,7 @@ def verify_function(e: Engine, qname: str) -> FunctionResult:
                 val = o.val if o.kind == "return" else none_sv()
                 check_post(e, c, o.st, val, entry)
                 if not canary_done:
-                    can = Obligation(f"{qname}/canary:exit-reachable", list(e.axioms) + list(o.st.pc), FALSE, {}, e.prop,
+                    can = Obligation(f"{qname}/canary:exit-reachable", list(e.axioms) + list(o.st.pc), FALSE, {}, "",
                                      "canary", expect="sat")
                     e.obls.append(can)
                     canary_done = True
